@@ -62,6 +62,15 @@ def gen_exprs(rng, n, sum_op, prod_op, carrier, max_leaves, wrappers, repeat=Fal
                 uvs = tuple((u, s_) if n_ == kk else (n_, s_) for n_, s_ in vs)
                 lf = leaf("f%d" % i, uvs, (), carrier)
                 w = rng.choice(["rename", "slice", "cat", "index", "index_same", "slice_full_same", "rename_same"])
+                same_size = [(n_, s_) for n_, s_ in vs if n_ != kk and s_ == size]
+                if same_size and rng.random() < 0.5:
+                    # DIAGONAL: rename an input onto ANOTHER input of the same leaf, x(i=k) with k already an input of x
+                    n2, _s2 = rng.choice(same_size)
+                    lf = leaf("f%d" % i, tuple(vs), (), carrier)
+                    e = subs(lf, ((kk, var(n2, ("bint", size))),))
+                    must_reduce.add(n2)
+                    ops_.append(e)
+                    continue
                 if w == "slice_full_same":
                     # a full-range Slice onto the SAME name: value-wise the identity, but a distinct term on the tape
                     lf = leaf("f%d" % i, tuple(vs), (), carrier)
